@@ -46,6 +46,9 @@ def field(vec, spec, mode):
     s = vec @ w  # in [-|w|, |w|], |w| <= 1
     if mode in ("F64", "F32"):
         val = (s * spec.get("gain", 1.0)).astype(np.float64)
+        if spec.get("inf_above") is not None:
+            # an overflowing region: +inf is a defined value (only NaN means undefined)
+            val = np.where(s > spec["inf_above"], np.inf, val)
         if spec.get("cap"):
             c = np.array(spec["cap"]["c"], dtype=float)
             inside = vec @ (c / np.linalg.norm(c)) > spec["cap"]["cos"]
@@ -66,10 +69,13 @@ def field(vec, spec, mode):
 def ambiguous(vec, spec):
     """pixels within rounding distance of the cap boundary: the sampler's definedness there
     depends on the last bit of the coordinates, so they are not judged"""
+    out = np.zeros(vec.shape[:-1], dtype=bool)
+    if spec.get("inf_above") is not None:
+        out |= np.abs(vec @ np.array(spec["w"], dtype=float) - spec["inf_above"]) < 1e-9
     if not spec.get("cap"):
-        return np.zeros(vec.shape[:-1], dtype=bool)
+        return out
     c = np.array(spec["cap"]["c"], dtype=float)
-    return np.abs(vec @ (c / np.linalg.norm(c)) - spec["cap"]["cos"]) < 1e-9
+    return out | (np.abs(vec @ (c / np.linalg.norm(c)) - spec["cap"]["cos"]) < 1e-9)
 
 
 def make_sampler(spec, mode):
@@ -105,12 +111,27 @@ def run_call(pio, call, case, k, sched, real):
     cs = cs_of(case["planetary"])
     sampler = make_sampler(call["sampler"], case["mode"])
     depth = case["depth"]
-    if call["kind"] == "clobber":
+    via = call.get("via")
+    if via:
+        # the same two entry points reached through Builder.toast_base: the coordinate system is requested either through
+        # `is_planet` alone or through an explicit `coordsys` (which then is the request, whatever `is_planet` says)
+        from toasty.builder import Builder
+
+        kw = {"parallel": k, "is_planet": bool(via["is_planet"]) if via["explicit"] else bool(case["planetary"])}
+        if via["explicit"]:
+            kw["coordsys"] = cs
+        if call["kind"] != "clobber":
+            F = gens.filter_fn(call["filter"])
+            kw["tile_filter"] = lambda t: F(tuple(t.pos))
+        fn = lambda: Builder(pio).toast_base(sampler, depth, **kw)
+        what = f"Builder.toast_base(depth={depth}, is_planet={kw['is_planet']}, {'coordsys=' + ('planetary' if case['planetary'] else 'astronomical') if via['explicit'] else 'no coordsys'}, {call['kind']}, {case['format']}/{case['mode']}, parallel={k})"
+    elif call["kind"] == "clobber":
         fn = lambda: toast.sample_layer(pio, sampler, depth, coordsys=cs, parallel=k)
     else:
         F = gens.filter_fn(call["filter"])
         fn = lambda: toast.sample_layer_filtered(pio, lambda t: F(tuple(t.pos)), sampler, depth, coordsys=cs, parallel=k)
-    what = f"{'sample_layer' if call['kind'] == 'clobber' else 'sample_layer_filtered'}(depth={depth}, {'planetary' if case['planetary'] else 'astronomical'}, {case['format']}/{case['mode']}, parallel={k})"
+    if not via:
+        what = f"{'sample_layer' if call['kind'] == 'clobber' else 'sample_layer_filtered'}(depth={depth}, {'planetary' if case['planetary'] else 'astronomical'}, {case['format']}/{case['mode']}, parallel={k})"
     if k == 1 or real:
         with toasty_call("sampling", what):
             fn()
@@ -225,6 +246,8 @@ def exec_case(case, real=False):
                     )
             locks = [f for _r, _d, fs in os.walk(d) for f in fs if f.endswith(".lock")]
     cls = [fmt, mode, f"depth{depth}", "planetary" if planetary else "astronomical", f"k{k}", "+".join(c["kind"] for c in case["calls"])]
+    if any(c.get("via") for c in case["calls"]):
+        cls.append("through-Builder.toast_base")
     if fmt == "fits":
         cls.append("bottom-up")
     return Outcome(classes=cls, nontrivial=depth == 0 or n_written >= 2, info={"tiles": n_written})
@@ -244,6 +267,8 @@ def sampler_specs(draw, mode):
     spec = {"w": [c / n * 0.999 for c in w]}
     if mode in ("F64", "F32"):
         spec["gain"] = draw(st.sampled_from([1.0, 100.0]))
+        if draw(st.integers(0, 4)) == 0:
+            spec["inf_above"] = draw(st.sampled_from([-2.0, -0.5, 0.0, 0.3, 0.8]))
     if mode in ("F64", "F32", "RGBA") and draw(st.integers(0, 2)) > 0:
         c = [draw(st.floats(-1, 1)) for _ in range(3)]
         if sum(abs(v) for v in c) < 0.1:
@@ -263,6 +288,8 @@ def strat(draw, tier, real=False):
         call = {"kind": kind, "sampler": draw(sampler_specs(mode))}
         if kind == "update":
             call["filter"] = draw(gens.filter_specs(depth))
+        if draw(st.integers(0, 3)) == 0:
+            call["via"] = {"explicit": draw(st.booleans()), "is_planet": draw(st.booleans())}
         calls.append(call)
     k = draw(st.sampled_from([2, 3, 4])) if real else draw(st.sampled_from([1, 1, 2, 3, 4]))
     case = {"format": fmt, "mode": mode, "depth": depth, "planetary": draw(st.booleans()), "calls": calls, "k": k}
